@@ -660,6 +660,29 @@ func keyTokenIndex(e *Env, v ssa.Value, depth int) (LE, bool) {
 				return keyTokenIndex(e.Sub(x, sc), rets[0].Results[0], depth+1)
 			}
 		}
+	case *ssa.Extract:
+		// the key handed back by a helper together with an error (`key, err := checkedKey(…)`): its non-nil results
+		if call, ok := x.Tuple.(*ssa.Call); ok {
+			if sc := call.Call.StaticCallee(); sc != nil && len(sc.Blocks) > 0 && sc.Pkg != nil && strings.HasPrefix(sc.Pkg.Pkg.Path(), modPath) && e.depth < maxDepth {
+				sub := e.Sub(call, sc)
+				var res LE
+				n := 0
+				for _, r := range returnsOf(sc) {
+					if x.Index >= len(r.Results) || isNilConst(r.Results[x.Index]) {
+						continue
+					}
+					l, ok := keyTokenIndex(sub, retval(r, x.Index), depth+1)
+					if !ok || (n > 0 && l.String() != res.String()) {
+						return LE{}, false
+					}
+					res = l
+					n++
+				}
+				if n > 0 {
+					return res, true
+				}
+			}
+		}
 	}
 	return LE{}, false
 }
